@@ -580,14 +580,25 @@ func (r *Runner) Finish() []EvObs {
 	return append([]EvObs{}, r.events...)
 }
 
-// Run executes a fixed script. A tick-free segment that takes too long taints the run (the age test of
-// the retry loop could then disagree with the model's clock); the caller repeats tainted runs.
-func (r *Runner) Run(script []Step) Result {
+// Run executes a fixed script and returns it with "probe" steps expanded. A probe is a List followed, for every listed
+// key, by an Update whose expected revision is the listed one (the listed revision must be usable as a precondition:
+// index record and newest version agree), followed by a final List.
+func (r *Runner) Run(script []Step) ([]Step, Result) {
 	t0 := time.Now()
 	res := Result{}
-	for _, st := range script {
+	var done []Step
+	do := func(st Step) Obs {
 		o := r.Exec(st)
+		done = append(done, st)
 		res.Obs = append(res.Obs, o)
+		return o
+	}
+	for _, st := range script {
+		if st.Kind == "probe" {
+			r.Probe(do)
+		} else {
+			do(st)
+		}
 		if r.failure != "" {
 			break
 		}
@@ -596,7 +607,24 @@ func (r *Runner) Run(script []Step) Result {
 	res.Failure = r.failure
 	res.Events = r.Finish()
 	res.WallMs = time.Since(t0).Milliseconds()
-	return res
+	return done, res
+}
+
+func (r *Runner) Probe(do func(Step) Obs) {
+	o := do(Step{Kind: "list"})
+	if r.failure != "" {
+		return
+	}
+	for _, kv := range o.List {
+		if kv.Key >= nKeys {
+			continue
+		}
+		do(Step{Kind: "update", Key: kv.Key, Val: []byte(fmt.Sprintf("p%d", kv.Key)), Rev: kv.Rev})
+		if r.failure != "" {
+			return
+		}
+	}
+	do(Step{Kind: "list"})
 }
 
 func (r *Runner) retryFinished(o *Obs, split bool, alreadyDealt bool) {
